@@ -23,6 +23,7 @@ void Relay::configure(const J &c)
 	edns = c.gets("edns", "keep");
 	shuffle = c.getb("shuffle"); reencode = c.getb("reencode"); idrewrite = c.getb("idrewrite");
 	ttl_rewrite = c.getb("ttl_rewrite");
+	ref_reencode = c.getb("ref_reencode");
 }
 
 std::string Relay::sig() const
@@ -30,7 +31,7 @@ std::string Relay::sig() const
 	std::string s = "cq=" + case_q + ",ca=" + case_a + ",hb=" + hibit + "/" + hibit_a + ",+=" + plus + ",_=" + under + ",ed=" + edns + ",max=" + std::to_string(maxans) + "/" + big + ",ref=";
 	for (int t : refuse) s += std::to_string(t) + "+";
 	s += refuse_mode;
-	if (shuffle) s += ",shuf"; if (reencode) s += ",reenc"; if (idrewrite) s += ",idrw";
+	if (shuffle) s += ",shuf"; if (reencode) s += ",reenc"; if (idrewrite) s += ",idrw"; if (ref_reencode) s += ",refenc";
 	return s;
 }
 
@@ -130,6 +131,24 @@ bool Relay::filter_answer(Dgram &d)
 		uint16_t nid = (d.data[0] << 8) | d.data[1];
 		auto it = idmap.find({d.dst.str(), nid});
 		if (it != idmap.end()) { d.data[0] = it->second >> 8; d.data[1] = it->second & 255; }
+	}
+	if (ref_reencode) {
+		// replace the server's encoding of the tunnel payload by the reference encoder's (same payload, same codec, different layout)
+		DnsMsg m; Bytes pl;
+		if (dns_parse_strict(d.data, m).empty() && m.qd.size() == 1 && !m.rcode && answer_payload(m, pl) && !pl.empty()) {
+			char enc = 'T';
+			uint16_t qt = m.qd[0].type;
+			if (qt == QT_TXT) { if (!m.an.empty() && !m.an[0].txt.empty() && !m.an[0].txt[0].empty()) enc = (char)toupper(m.an[0].txt[0][0]); }
+			else if (qt != QT_NULL && qt != QT_PRIVATE) {
+				const DnsRR *first = nullptr;
+				for (auto &r : m.an) if (!first || r.pref < first->pref) first = &r;
+				if (first && !first->rname.labels.empty() && !first->rname.labels[0].empty()) { char l = (char)tolower(first->rname.labels[0][0]); enc = l == 'i' ? 'S' : l == 'j' ? 'U' : l == 'k' ? 'V' : 'T'; }
+			}
+			int used = 0;
+			Bytes nb = build_answer(m.id, m.qd[0].name.dotted(), qt, pl, enc, &used);
+			if (used == (int)pl.size() && nb.size() < 65000) { d.data = nb; S->count("relay.ref_reencoded"); }
+			else S->count("relay.ref_reencode_nofit");
+		}
 	}
 	bool need_rebuild = case_a != "keep" || shuffle || reencode || ttl_rewrite || hibit_a == "strip";
 	if (need_rebuild) {
